@@ -8,7 +8,8 @@ From Coq Require Import String.
 From Coq Require Import List NArith Bool.
 From Wbxml Require Import Model.Codec Model.TablesDefs Gen.TablesData Model.Parser Model.TreeBuild Model.TreeConv Model.Conv Model.ConvConcrete
      Proofs.TreeBuildProofs Proofs.TreeBuildProofs3 Proofs.TreeRoundTrip Proofs.ConvRoundTrip Proofs.ConvSecondIter Proofs.ConvFirstToSecond Proofs.ConvSecondIndent Proofs.ConvSecondNs
-     Proofs.TreeRoundTripWide Proofs.ConvRoundTripWide Proofs.ConvWideUnforced Proofs.ConvSecondIterWide Proofs.ConvFirstToSecondWide Proofs.ConvSecondIndentWide.
+     Proofs.TreeRoundTripWide Proofs.ConvRoundTripWide Proofs.ConvWideUnforced Proofs.ConvSecondIterWide Proofs.ConvFirstToSecondWide Proofs.ConvSecondIndentWide Proofs.ConvWideEvents.
+From Wbxml Require Model.XmlFrontCanonEvents.
 From Wbxml Require Model.XmlFrontEvents Proofs.XmlFrontInverse Model.EncWbxmlEvents.
 From Wbxml Require Proofs.EncWbxmlSize Proofs.EncWbxmlSize2 Proofs.EncWbxmlSuccess.
 From Wbxml Require Proofs.EncWbxmlAbs Proofs.EncWbxmlDenote2 Proofs.EncWbxmlTblOk Proofs.EncWbxmlDenote3.
@@ -577,6 +578,59 @@ Theorem C03_roundtrip_and_idempotence_wide_partial :
 Proof. exact roundtrip_and_idempotence_wide_total. Qed.
 Print Assumptions C03_roundtrip_and_idempotence_wide_partial.
 
+(* THE SAME WITH THE SOURCE-SIDE HYPOTHESIS ON THE SOURCE'S EVENTS: xmlfront's evs_canon (Model/XmlFrontCanonEvents.v: none of the twelve
+   clauses fires along the run of the callbacks; on the corpus: 216 of 220 files, measured by props/C02) gives root_canon of the tree
+   the front end hands out (C02f_image_canonical_any); what src_okW asks beyond root_canon is the fragment predicate fragW (no element
+   named Data, no binary-flagged row, elt_ok: names / namespaces / attributes come back as written, NUL-free texts):
+   C03_canonical_tree_in_fragment_is_source_ok.  Language ids are unique in the table (true of the project's: C10_shared_identifiers). *)
+Theorem C03_canonical_tree_in_fragment_is_source_ok : forall L xo wa emb root,
+  XmlFrontEvents.root_canon L emb root = true -> fragW L xo wa root -> src_okW L xo wa 0 root.
+Proof. exact root_canon_src. Qed.
+Print Assumptions C03_canonical_tree_in_fragment_is_source_ok.
+
+Theorem C03_roundtrip_and_idempotence_wide_events_partial :
+  forall (main TBL : list lang) (btbl : list EncWbxml.blang) (sub : EncWbxml.bytes -> XmlFront.xtree + N)
+         evs expat_ok o doc w (L : lang) tag attrs ch o',
+  let e := EncWbxml.enc_env (EncWbxmlDenote2.to_blang L) o in
+  let wa := EncWbxml.has_attr_table e in
+  let root := EncWbxml.NElt tag attrs ch in
+  let R2 := EncWbxml.NElt tag attrs (flat_map (TreeNorm.norm_node (EncWbxml.o_keep_ws o) false) ch) in
+  let root' := tnodeW wa R2 in
+  let xl := EncXml.xlang_of L in
+  let xo := EncXml.opts_of_params (gen_of (wo_gen o')) (wo_indent o') (wo_keep_ws o') in
+  let nmx := to_tname L (EncWbxmlTblOk.tag_event tag) in
+  let ax := map to_attr (if wa then map EncWbxmlDenote2.attr_event attrs else []) in
+  r_out (ConvXml2Wbxml.xml2wbxml_events main btbl sub evs expat_ok o doc) = Some w ->
+  (forall t0, XmlFront.tree_from_xml main sub doc evs expat_ok = inl t0 ->
+     EncWbxml.find_lang btbl (XmlFront.xt_lang t0) = Some (EncWbxmlDenote2.to_blang L) /\ XmlFront.xt_roots t0 = [root]) ->
+  XmlFrontCanonEvents.evs_canon main sub doc XmlFrontInverse.no_emb evs = true -> (forall l, In l main -> l_id l = l_id L -> l = L) ->
+  fragW L xo wa root ->
+  EncWbxmlAbs.plain_env e = true -> EncWbxmlDenote2.vals_ok L = true -> l_exts L = None ->
+  EncWbxmlTblOk.tree_ok3 L 0 root = true ->
+  EncWbxmlSize.lang_vals_ok (EncWbxmlDenote2.to_blang L) -> EncWbxmlSize2.names_ok root ->
+  N.of_nat (33 * EncWbxmlSize2.wsize 0 root + EncWbxmlSize2.hdr (EncWbxmlDenote2.to_blang L)) < 4294967296 ->
+  find (fun y => l_id y =? l_id L) TBL = Some L ->
+  lang_choiceW TBL L e (wo_lang o') -> wo_charset o' = 0 ->
+  EncWbxml.o_version o < 4 -> EncWbxml.header_public_id e < 4294967296 -> EncWbxml.header_public_id e <> 0 ->
+  (match EncWbxmlAbs.header_pid e with Some p => EncWbxmlDenote2.okb p = true | None => True end) ->
+  no_data (EncWbxmlDenote3.doc_events3 L e (EncWbxml.o_keep_ws o) root) = true ->
+  EncWbxml.find_lang btbl (l_id L) = Some (EncWbxmlDenote2.to_blang L) ->
+  LangSelect.search_table main (option_map XmlFront.str (EncXml.xl_pub xl)) (Some (XmlFront.str (EncXml.xl_dtd xl))) None = Some L ->
+  EncXml.is_indent xo = false -> EncXml.is_syncml xl = false -> keep_compatible (EncWbxml.o_keep_ws o) xo ->
+  EncXmlProofs.lang_ok xl = true -> EncXmlIndent.node_ok_g xl xo EncXml.proot None (to_xnode TBL L root') = true ->
+  exists x c d w2,
+    wbxml2xml_model TBL o' w = mk_res ST_OK (Some (x ++ [0])) (N.of_nat (length x)) /\
+    EncXml.enc_xml_opts xl xo [to_xnode TBL L root'] = EncXml.XOk x /\
+    d = EncXmlProofs.doc_of xl [XmlRead.XE (EncXml.tname_bytes nmx) (EncXmlProofs.spec_attrs xl xo EncXml.proot nmx ax) c] /\
+    (forall fuel, (EncXmlProofs.node_fuel (to_xnode TBL L root') + 2 <= fuel)%nat -> XmlRead.read_xml fuel x = XmlRead.ROk d) /\
+    events_of_info_ns d = XmlFrontInverse.doc_events L (EncXml.xl_root xl) (Some (EncXml.xl_dtd xl)) (EncXml.xl_pub xl) R2 /\
+    forall doc2, doc2 <> [] ->
+      XmlFront.tree_from_xml main sub doc2 (events_of_info_ns d) true = inl (XmlFront.mk_xtree (l_id L) 0 [R2]) /\
+      r_out (ConvXml2Wbxml.xml2wbxml_events main btbl sub (events_of_info_ns d) true o doc2) = Some w2 /\
+      wbxml2xml_model TBL o' w2 = mk_res ST_OK (Some (x ++ [0])) (N.of_nat (length x)).
+Proof. exact roundtrip_and_idempotence_wide_events. Qed.
+Print Assumptions C03_roundtrip_and_idempotence_wide_events_partial.
+
 (* ... WITH INDENT GENERATION on the wide fragment, the encoder's keep_ws off (with keep_ws on it is not a fixed point: D38).
    The front-end tree of the indented XML, Tind = etq (qual ..): the tree of the infoset with qualified names (qual: what a parser
    in namespace mode reports), has the white space between markup as text nodes; it is canonical for the front end, lies in the wide
@@ -1016,4 +1070,25 @@ Proof.
   assert (N1 : EncWbxmlSize2.names_ok exw_root) by (unfold exw_root; cbn [EncWbxmlSize2.names_ok]; solve_names).
   assert (N2 : EncWbxmlSize2.names_ok exa_root) by (unfold exa_root; cbn [EncWbxmlSize2.names_ok]; solve_names).
   split; [exact V1|]. split; [exact N1|]. split; [vm_compute; reflexivity|]. split; [exact V2|]. split; [exact N2|]. vm_compute; reflexivity.
+Qed.
+
+(* the events form of the source-side hypothesis, on the WML example: evs_canon of the source's events, fragW of its tree, unique ids *)
+Ltac solve_frag :=
+  cbn [fragW];
+  repeat match goal with
+  | |- _ /\ _ => split
+  | |- True => exact I
+  | |- elt_ok _ _ _ _ _ => unfold elt_ok, attrs_link
+  | |- match ?m with Some _ => _ | None => _ end => let v := eval vm_compute in m in change m with v; cbv beta iota
+  | |- exists _, _ => eexists
+  | |- _ = _ => first [reflexivity | vm_compute; reflexivity]
+  end.
+Example C03_ex_wide_events_hypotheses :
+  XmlFrontCanonEvents.evs_canon main_table ex_sub [60] XmlFrontInverse.no_emb exw_evs = true /\
+  fragW exw_L exw_xo true exw_root /\
+  (forall l, In l main_table -> l_id l = l_id exw_L -> l = exw_L).
+Proof.
+  split; [vm_compute; reflexivity|]. split; [unfold exw_root; solve_frag|].
+  intros l Hin Hid. unfold main_table in Hin.
+  repeat (destruct Hin as [<-|Hin]; [first [reflexivity | vm_compute in Hid; discriminate]|]). destruct Hin.
 Qed.
